@@ -251,6 +251,9 @@ def write_targets(prog, tn, depth=2):
                         edge = [lo + c - 1, lo + c, hi + c, hi + c + 1, c]
                     elif x["op"] == "y-c":
                         edge = [lo - c - 1, lo - c, hi - c, hi - c + 1, -c]
+                    elif x["op"] == "expr":
+                        e0, e1 = x["edges"][0], x["edges"][-1]
+                        edge = [e0 - 1, e0, e0 + 1, e1 - 1, e1, e1 + 1, (e0 + e1) // 2]
                     else:
                         edge = [c - hi - 1, c - hi, c - lo, c - lo + 1, c]
                     out.append({"path": prefix + [f["name"]], "st": "Int", "w": min(24, tgt["w"] + 2), "cast": "virt",
